@@ -297,5 +297,40 @@ pub fn run(out: &mut Out, tier: &str, seed: u64) {
             }
         }
     }
+    // cut points: the text up to the end of any logical line must parse the same with and without its final newline
+    // (whatever the last statement is: a bare `return`, a bodyless trait method, `pass`, a closing bracket …)
+    let per_file = if thorough { 40 } else { 8 };
+    let mut n_cut = 0u32;
+    for (fi, (name, src)) in sources.iter().enumerate() {
+        let Ok(Ok(toks)) = catch(|| incan_syntax::lexer::lex(src)) else { continue };
+        let ps = pieces(src, &toks);
+        // a piece whose gap starts a new line at bracket depth 0: the text before that gap ends a logical line
+        let ends: Vec<usize> = (1..ps.len()).filter(|&i| ps[i].depth_before == 0 && ps[i].gap.contains('\n') && !ps[i - 1].text.is_empty()).collect();
+        if ends.is_empty() { continue; }
+        let mut chosen: Vec<usize> = Vec::new();
+        if ends.len() <= per_file { chosen = ends.clone(); } else { while chosen.len() < per_file { let e = *rng.pick(&ends); if !chosen.contains(&e) { chosen.push(e); } } }
+        for i in chosen {
+            let mut prefix = render(&ps[..i]);
+            // keep a trailing comment of the cut line with it
+            let g = &ps[i].gap;
+            let line_rest = &g[..g.find('\n').unwrap_or(0)];
+            prefix.push_str(line_rest);
+            let with_nl = format!("{prefix}\n");
+            let a = catch(|| corpus::ast_string(&with_nl));
+            let b = catch(|| corpus::ast_string(&prefix));
+            let verdict = match (a, b) {
+                (Ok(Ok(x)), Ok(Ok(y))) => if x == y { "same".to_string() } else { "differs".to_string() },
+                (Ok(Err(_)), Ok(Err(_))) => "both-reject".to_string(),
+                (Ok(Ok(_)), Ok(Err(e))) => format!("only-without-newline-rejected:{}", e.replace(' ', "_")),
+                (Ok(Err(e)), Ok(Ok(_))) => format!("only-with-newline-rejected:{}", e.replace(' ', "_")),
+                _ => "panic".to_string(),
+            };
+            let dump = if verdict != "same" && verdict != "both-reject" && prefix.len() < 1500 { crate::util::enc_str(&prefix) } else { "-".to_string() };
+            out.case(&format!("c10 cut {fi} {i} {} {dump}", name.replace(' ', "_")), &verdict);
+            lex_case(out, &prefix);
+            n_cut += 1;
+        }
+    }
+    out.meta(&serde_json::json!({"cut_points": n_cut}));
     out.meta(&serde_json::json!({"sources_used": used, "sources_skipped_not_parsing": skipped, "synthetic": n_syn, "edits": EDITS}));
 }
